@@ -564,7 +564,16 @@ def se_replay(rep, prog, cfg, rng, tag):
                 kept.append((system, k, (prog["steps"][k - 1] if k else prog)))
                 system = system.copy()
             elif op == "roundtrip":
-                system = rdsystem_from_dict(rdsystem_to_dict(system))
+                how = rng.randrange(3)          # through the dictionary, through JSON text, through a file
+                if how == 0:
+                    system = rdsystem_from_dict(rdsystem_to_dict(system))
+                elif how == 1:
+                    system = rdsystem_from_dict(json.loads(json.dumps(rdsystem_to_dict(system))))
+                else:
+                    from strengths import load_rdsystem, save_rdsystem
+                    path = os.path.join(util.subdir("c13_files"), "sys_%d.json" % os.getpid())
+                    save_rdsystem(system, path)
+                    system = load_rdsystem(path)
             else:
                 raise MachineryError("unknown operation in a generated history: %r" % op)
         except MachineryError:
